@@ -132,7 +132,7 @@ pub const GROUPS: [&str; 9] = [
 pub fn group_values(name: &str) -> Vec<u64> {
     match name {
         "n_queries" => vec![0, 1, 47, 48, 49, 200, 1 << 12, 1 << 16, 1 << 20, 1 << 24, 1 << 32, 1 << 40, u64::MAX],
-        "blowup" => vec![0, 1, 8, 16, 17, 40, 60, 64, 100, 200, 1 << 16, 1 << 32, u64::MAX],
+        "blowup" => vec![0, 1, 2, 3, 4, 5, 6, 7, 8, 9, 10, 11, 12, 13, 14, 15, 16, 17, 40, 60, 64, 100, 200, 1 << 16, 1 << 32, u64::MAX],
         "blowup_mod_p" => vec![1, 2, 3, 16],
         "trace_size" => vec![0, 1, 4, 10, 30, 59, 60, 64, 80, 100, 190, 250, 1 << 16, u64::MAX],
         "last_layer_bound" => vec![0, 1, 10, 15, 16, 20, 40, 64],
@@ -142,6 +142,23 @@ pub fn group_values(name: &str) -> Vec<u64> {
         "steps_all" => vec![0, 1, 2, 4, 5, 16, 64, 1 << 40],
         _ => vec![],
     }
+}
+
+/// every in-range blow-up exponent combined with out-of-range query counts (and vice versa): two
+/// cooperating fields that each look fine alone
+pub fn cross_blowup_queries() -> Vec<Edit> {
+    let mut out = vec![];
+    for c in 1..=16u64 {
+        for q in [49u64, 129, 200, 1 << 12, 1 << 16, 1 << 20, 1 << 24] {
+            out.push(Edit::Multi(vec![Edit::Group("blowup".into(), c), Edit::Group("n_queries".into(), q)]));
+        }
+    }
+    for q in [1u64, 16, 48] {
+        for c in [0u64, 17, 64, 1 << 16] {
+            out.push(Edit::Multi(vec![Edit::Group("blowup".into(), c), Edit::Group("n_queries".into(), q)]));
+        }
+    }
+    out
 }
 
 pub fn apply_group(p: &mut StarkProof, name: &str, v: u64) {
@@ -320,6 +337,7 @@ pub fn edits_for(base: &Value, rng: &mut Rng, thorough: bool, budget_singles: us
         }
     }
     out.extend(groups.clone());
+    out.extend(cross_blowup_queries());
     let n_pairs = if thorough { 1500 } else { 150 };
     let pool: Vec<Edit> = out.clone();
     for _ in 0..n_pairs {
@@ -355,7 +373,9 @@ pub fn run(args: &Args) -> Report {
     let thorough = args.thorough();
     let repo = args.str("repo", "/repo");
     let mut worker = Worker::new(args);
-    crate::resmon::set_address_space_limit(args.u64("as_limit_gb", 8) << 30);
+    if args.u64("as_limit_gb", 8) > 0 {
+        crate::resmon::set_address_space_limit(args.u64("as_limit_gb", 8) << 30);
+    }
     crate::resmon::start_cpu_watchdog(args.u64("cpu_limit_s", 120) as f64);
     let mut rep = Report::new();
     let base_rng = Rng::new(seed).fork("malformed").fork(vcomp::build_hash().name()).fork(build_stone());
